@@ -64,3 +64,7 @@ func (n *VerifNode) ShardInfo(id uint64) dragonboat.ShardView { return n.d.shard
 func VerifMerge(current, update dragonboat.ShardView) dragonboat.ShardView {
 	return mergeShardInfo(current, update)
 }
+
+// VerifUpdateView feeds shard updates into the view of a running Cluster, as a local Raft event or a
+// gossip merge would.
+func (c *Cluster) VerifUpdateView(u []dragonboat.ShardView) { c.shardView.update(u) }
